@@ -23,8 +23,13 @@ func (db *DynamicBitSet) Key() DynamicBitSetKey {
 	if db.key != charproc.None {
 		return db.key
 	}
-	var bytes = make([]byte, len(db.bits)*8)
-	for i, v := range db.bits {
+	// 尾部的全零字不参与键的计算，保证相同的位集合得到相同的键
+	n := len(db.bits)
+	for n > 0 && db.bits[n-1] == 0 {
+		n--
+	}
+	var bytes = make([]byte, n*8)
+	for i, v := range db.bits[:n] {
 		bytes[i*8+0] = byte(v >> 0)
 		bytes[i*8+1] = byte(v >> 8)
 		bytes[i*8+2] = byte(v >> 16)
@@ -92,14 +97,17 @@ func (db *DynamicBitSet) Equal(other *DynamicBitSet) bool {
 		return true
 	}
 
-	// 先比较长度
-	if len(db.bits) != len(other.bits) {
-		return false
+	// 逐位比较，较长一方多出的部分必须全为零
+	long, short := db.bits, other.bits
+	if len(long) < len(short) {
+		long, short = short, long
 	}
-
-	// 逐位比较
-	for i := range db.bits {
-		if db.bits[i] != other.bits[i] {
+	for i := range long {
+		if i < len(short) {
+			if long[i] != short[i] {
+				return false
+			}
+		} else if long[i] != 0 {
 			return false
 		}
 	}
@@ -115,9 +123,12 @@ func (db *DynamicBitSet) In(mask *DynamicBitSet) bool {
 
 	// 逐位比较
 	for i := range mask.bits {
-		// 如果 db 的 bits 长度不够，直接返回 false
+		// 如果 db 的 bits 长度不够，超出部分的掩码必须为零
 		if i >= len(db.bits) {
-			return false
+			if mask.bits[i] != 0 {
+				return false
+			}
+			continue
 		}
 
 		// 逐位检查
